@@ -251,6 +251,8 @@ PROPS["C17"] = dict(
 
 # deep-input suites additionally run in the unoptimised dev profile with debug assertions (the profile `cargo test` uses):
 # iterative code that silently becomes recursive, or a debug_assert! that walks a structure, only shows there
+PROPS["C10"]["printsrc"] = True
+PROPS["C11"]["printsrc"] = True
 PROPS["C18"]["termsrc"] = True
 PROPS["C19"]["termsrc"] = True
 PROPS["C18"]["suites_dev"] = ["deep"]
@@ -274,3 +276,11 @@ _EXTRA_RULE = {
 }
 for _k, _v in _EXTRA_RULE.items():
     PROPS[_k]["rule"] = PROPS[_k]["rule"] + _v
+
+# session 4: source translators for term.rs
+_PRINT_TIE = ("tie (printers): base26_encode, show_precedence_cla, show_precedence_dbr, parenthesize_if and the Display/Debug impls are "
+              "REGENERATED from src/term.rs on every run by the translator lib/trans_print.py (Gen/PrintSrc.v; max_depth by "
+              "lib/trans_term.py) and proved equal to the model printers (Proofs/PrintSrcTie.v); `{:X}` is the hand-written upper_hex; "
+              "outside the translated idiom the last good copy coq/baseline/PrintSrc.v is used and the tie is the correspondence run alone")
+for _k in ("C10", "C11"):
+    PROPS[_k]["trusted_base"] = list(PROPS[_k]["trusted_base"]) + [_PRINT_TIE]
